@@ -118,6 +118,11 @@ func (tx *SignedTransaction) GetExtraLimit() int {
 	if out.Amount.Cmp(step) < 0 {
 		return ExtraSizeGeneralLimit
 	}
+	// an amount that pays for the whole capacity needs no cell count: Count
+	// panics when the quotient does not fit uint64, and cells * step overflows
+	if out.Amount.Cmp(step.Mul(ExtraSizeStorageCapacity/ExtraSizeStorageStep)) >= 0 {
+		return ExtraSizeStorageCapacity
+	}
 	cells := out.Amount.Count(step)
 	limit := cells * ExtraSizeStorageStep
 	if limit > ExtraSizeStorageCapacity {
